@@ -33,7 +33,7 @@ def resub(path, pattern, repl):
 
 BENIGN = {
     "B01_cache_tmp_suffix": [
-        sub("lena/flow/cache.py", 'self._filename + ".tmp"', 'self._filename + ".part"')],
+        sub("lena/flow/cache.py", 'tmp_filename = "{}.{}.{}.tmp".format(', 'tmp_filename = "{}.{}.{}.part".format(')],
     "B02_fillrequest_buffer_names": [
         resub("lena/core/adapters.py", r"_buffer_in\b", "_inbuf"),
         resub("lena/core/adapters.py", r"_buffer_out\b", "_outbuf")],
